@@ -246,6 +246,13 @@ def classify_exception(x: BaseException, cfg: dict) -> dict:
 
     msg = str(x)
     low = msg.lower()
+    mislabelled = None
+    mm = re.search(r"ei_([a-z0-9]+)_method\s*'([^']*)'", low)
+    if mm and (mm.group(1) + '_method') in cfg and str(cfg[mm.group(1) + '_method']).lower() != mm.group(2):
+        # the message says "<option> '<value>' is not supported" with a value that option does not have in this configuration
+        mislabelled = f"the error names {mm.group(1)}_method but quotes '{mm.group(2)}', while the configuration has {mm.group(1)}_method = {cfg[mm.group(1) + '_method']!r}"
+    if isinstance(x, NotImplementedError) and mislabelled:
+        return {'class': 'refused', 'option': None, 'value': None, 'type': 'NotImplementedError', 'message': msg[:160], 'mislabelled': mislabelled}
     if isinstance(x, NotImplementedError):
         named = [o for o in METHOD_OPTS if isinstance(cfg.get(o), str)
                  and re.search(r'(?<![a-z0-9])' + re.escape(cfg[o]) + r'(?![a-z0-9])', low)]
@@ -348,7 +355,9 @@ def clauses(fx: Fx, case: dict, rec: dict, em, info) -> list[tuple[str, str]]:
         out.append(('no_internal_error', f"{rec['kind']}: {rec['message']}"))
         return out
     if rec['class'] == 'refused':
-        if rec['option'] is None:
+        if rec.get('mislabelled'):
+            out.append(('refusal_names_method', rec['mislabelled'] + f" ({rec.get('message')})"))
+        elif rec['option'] is None:
             out.append(('refusal_names_method', f"{rec['type']} does not name a configured method: {rec.get('message')}"))
         return out
     Species = fx.Species
